@@ -7,8 +7,10 @@ born       the BORN-file convention stores Born tensors of symmetry-independent 
            others (file_IO._expand_borns).  With symbolic tensors that respect the crystal symmetry (space-group average of
            free reals, harness oracle, self-tested) the regenerated tensors equal the original ones for all values (LRA),
            on crystals whose equivalent atoms are related by 3-, 4- and 6-fold operations.
-Text round trips (phonopy.yaml, FORCE_SETS, FORCE_CONSTANTS, hdf5, BORN text) are NOT covered: formatted floats have no
-solver theory and PyYAML/h5py are C libraries.
+yaml       phonopy.yaml through PhonopyYaml on a concrete object (ground facts, not solver claims): a default dump does not depend on
+           earlier dumps with other settings; cells, both dataset types and force constants read back as written.
+Other text round trips (FORCE_SETS, FORCE_CONSTANTS, hdf5, BORN text, save()/load() priority rules) are NOT covered: formatted floats
+have no solver theory and PyYAML/h5py are C libraries.
 """
 from fractions import Fraction
 
@@ -39,7 +41,7 @@ def units(tier):
         from checks.c08 import _sb_crystals
         for k, v in _sb_crystals().items():
             CRYSTALS.setdefault(k, (v[0], v[1], v[2]))
-    return [("dataset", 0)] + [("born", c) for c in CRYSTALS]
+    return [("dataset", 0), ("yaml", 0)] + [("born", c) for c in CRYSTALS]
 
 
 def dataset_unit(u, res):
@@ -172,8 +174,74 @@ def born_unit(u, res):
     return res
 
 
+def yaml_unit(u, res):
+    """phonopy.yaml through PhonopyYaml (ground facts evaluated on a concrete object; text formats have no solver theory): the dump with
+    default settings does not depend on which dumps were made before it, and cells, both dataset types (with forces) and force constants
+    read back as written to the printed precision."""
+    import io
+    ctx = harness.setup()
+    from engine import bridge
+    import geometries
+    from phonopy.interface.phonopy_yaml import PhonopyYaml
+    br = bridge.Bridge(ctx.shim, ctx.ir); br.install()
+    facts = []
+    try:
+        rng = np.random.default_rng(5)
+        for dtype in (1, 2):
+            ph = geometries.phonopy_obj("tric2", "211")
+            n = len(ph.supercell)
+            if dtype == 1:
+                ph.generate_displacements(distance=0.03)
+                ph.forces = rng.uniform(-1, 1, (len(ph.displacements), n, 3))
+            else:
+                ph.dataset = {"displacements": rng.uniform(-0.03, 0.03, (7, n, 3)), "forces": rng.uniform(-1, 1, (7, n, 3))}
+            if dtype == 1:
+                ph.produce_force_constants(show_drift=False)
+            else:       # type-2 datasets need symfc/ALM (not installed): give the object force constants directly
+                F = rng.uniform(-1, 1, (n, n, 3, 3)); ph.force_constants = (F + np.transpose(F, (1, 0, 3, 2))) / 2
+
+            def dump(settings):
+                y = PhonopyYaml(settings=settings)
+                y.set_phonon_info(ph)
+                return str(y)
+            before = dump(None)
+            dump({"force_sets": False, "force_constants": True, "displacements": False})
+            dump({"force_sets": True, "born_effective_charge": False, "dielectric_constant": False})
+            after = dump(None)
+            facts.append(("type-%d: a dump with default settings is the same text before and after dumps with other settings" % dtype, before == after,
+                          "a phonopy.yaml dump with default settings changes after another dump with non-default settings was made in the same process (settings leak between dumps)"))
+            y2 = PhonopyYaml()
+            y2.read(io.StringIO(after))
+            ok = y2.dataset is not None
+            if ok:
+                if dtype == 1:
+                    f_in = np.array([d["forces"] for d in ph.dataset["first_atoms"]]); f_out = np.array([d.get("forces", np.full((n, 3), np.nan)) for d in y2.dataset["first_atoms"]])
+                    d_in = np.array([d["displacement"] for d in ph.dataset["first_atoms"]]); d_out = np.array([d["displacement"] for d in y2.dataset["first_atoms"]])
+                else:
+                    f_in = ph.dataset["forces"]; f_out = y2.dataset.get("forces", np.full_like(f_in, np.nan)); d_in = ph.dataset["displacements"]; d_out = y2.dataset["displacements"]
+                ok = np.shape(f_in) == np.shape(f_out) and np.allclose(f_in, f_out, atol=1e-9) and np.allclose(d_in, d_out, atol=1e-12)
+            facts.append(("type-%d: displacements and forces read back from the default dump equal those written" % dtype, bool(ok), "the displacement/force dataset read back from a default phonopy.yaml dump differs from the data that were written"))
+            ok = np.abs(y2.supercell.cell - ph.supercell.cell).max() < 1e-12 and np.abs(y2.supercell.scaled_positions - ph.supercell.scaled_positions).max() < 1e-12 and \
+                np.abs(np.array(y2.supercell_matrix) - ph.supercell_matrix).max() == 0 and list(y2.unitcell.symbols) == list(ph.unitcell.symbols)
+            facts.append(("type-%d: cells and supercell matrix read back as written" % dtype, bool(ok), "cells read back from phonopy.yaml differ from those written"))
+            yfc = PhonopyYaml(); yfc.read(io.StringIO(dump({"force_constants": True})))
+            ok = yfc.force_constants is not None and np.allclose(yfc.force_constants, ph.force_constants, atol=1e-10)
+            facts.append(("type-%d: force constants read back as written" % dtype, bool(ok), "force constants read back from phonopy.yaml differ from those written"))
+    finally:
+        br.uninstall()
+    for name, ok, what in facts:
+        res.queries.append({"name": name + " [ground fact]", "verdict": "unsat" if ok else "sat", "seconds": 0.0, "nvars": 0, "nontrivial": False, "hash": "ground"})
+        if not ok:
+            res.violations.append({"key": "%s:yaml:%s" % (PID, name.split(":")[0] + "_" + name.split(": ")[1][:24].replace(" ", "_")), "what": what, "replay": {}})
+    res.twins.append({"name": "yaml twin", "verdict": "sat"})
+    res.samples.append({"unit": res.unit, "facts": [f[0] for f in facts]})
+    return res
+
+
 def run_unit(u):
     res = Result("/".join(str(x) for x in u))
+    if u[0] == "yaml":
+        return yaml_unit(u, res)
     return dataset_unit(u, res) if u[0] == "dataset" else born_unit(u, res)
 
 
